@@ -838,22 +838,29 @@ func (r *Run) replayVerdict(out string, cf cexFile) string {
 	if strings.Contains(out, "VERIF-DESYNC") {
 		return "NOT-REPRODUCED(desync)"
 	}
+	if cf.Kind == "panic" {
+		if strings.Contains(out, "VERIF-PANIC") || strings.Contains(out, "panic:") {
+			return "REPRODUCED"
+		}
+		if strings.Contains(out, "VERIF-LOG unreachable-prestate") {
+			return "UNREACHABLE-PRESTATE"
+		}
+		return "NOT-REPRODUCED(no panic)"
+	}
+	// the failing assertion counts when it is reported before the native run stops
+	for _, line := range strings.Split(out, "\n") {
+		if strings.HasPrefix(line, "VERIF-ASSERT "+cf.Assertion+" false") {
+			return "REPRODUCED"
+		}
+		if strings.HasPrefix(line, "VERIF-ASSUME-FALSE") || strings.HasPrefix(line, "VERIF-STOPPED") {
+			break
+		}
+	}
 	if strings.Contains(out, "VERIF-LOG unreachable-prestate") {
 		return "UNREACHABLE-PRESTATE"
 	}
 	if strings.Contains(out, "VERIF-ASSUME-FALSE") {
 		return "NOT-REPRODUCED(assumption false natively)"
-	}
-	if cf.Kind == "panic" {
-		if strings.Contains(out, "VERIF-PANIC") || strings.Contains(out, "panic:") {
-			return "REPRODUCED"
-		}
-		return "NOT-REPRODUCED(no panic)"
-	}
-	for _, line := range strings.Split(out, "\n") {
-		if strings.HasPrefix(line, "VERIF-ASSERT "+cf.Assertion+" false") {
-			return "REPRODUCED"
-		}
 	}
 	if strings.Contains(out, "VERIF-PANIC") || strings.Contains(out, "panic:") {
 		return "NOT-REPRODUCED(native panic instead)"
@@ -874,11 +881,15 @@ func (r *Run) nativeRun(pkgRelDir, harness, modelPath string) (string, error) {
 		if filepath.Dir(rel) != pkgRelDir {
 			continue
 		}
-		src, _ := os.ReadFile(filepath.Join(r.HarnessRoot, rel))
+		root := harnessRoots[rel]
+		if root == "" {
+			root = r.HarnessRoot
+		}
+		src, _ := os.ReadFile(filepath.Join(root, rel))
 		if pkgName == "" {
 			pkgName = packageClause(string(src))
 		}
-		ov[filepath.Join(r.Repo, rel)] = filepath.Join(r.HarnessRoot, rel)
+		ov[filepath.Join(r.Repo, rel)] = filepath.Join(root, rel)
 	}
 	if pkgName == "" {
 		return "", fmt.Errorf("no harness files for %s", pkgRelDir)
